@@ -136,6 +136,8 @@ def _(c):
 # ---- Image / ImageDescription: rows reversed with the WCS; ensure_negative_parity ----
 
 OBJ_CASES = [{"pcs": p, "kind": k, "mode": "F32"} for p in (True, False) for k in ("Image", "ImageDescription")]
+# descriptions of colour images carry the planes as a third axis of `shape` (rows stay the FIRST axis)
+OBJ_CASES += [{"pcs": p, "kind": "ImageDescription", "mode": "RGB", "planes": 3} for p in (True, False)]
 
 
 def obj_setup(interp, path):
@@ -147,7 +149,7 @@ def obj_setup(interp, path):
         me = mk_image(interp, "image", "F32", H, W)
         me.fields["_wcs"] = wcs
     else:
-        me = Inst("ImageDescription", module="toasty.image", fields={"mode": None, "shape": (H, W), "wcs": wcs})
+        me = Inst("ImageDescription", module="toasty.image", fields={"mode": None, "shape": (H, W) + ((case["planes"],) if case.get("planes") else ()), "wcs": wcs})
     return {"self": me}
 
 
